@@ -122,6 +122,18 @@ CHECKS = {
              "routing are not decided.",
         design_ref="DESIGN.md §5 C06", note=STATIC_NOTE,
         technique="static analysis: argument-role agreement against parsed fontTools signatures, coordinate leaf tracing through reaching definitions, guard facts from control dependence, class-attribute tables"),
+    "C09": dict(
+        text="Static structural clauses of the interpolatable paths: decisions are joint (mixed-glyph set over all glyph sets, 2x2 mismatch "
+             "check over all layers before one interpolatable decomposition; one fonts_to_quadratic call over all masters with per-master "
+             "errors; no per-master curve conversion / overlap removal / contour sorting; built-in steps only use I-filters or reviewed "
+             "per-glyph-independent filters); every shipped filter has an interpolatable sibling by the package's own discovery convention "
+             "or is on a reviewed list, sibling option tables agree; filters are merged only when class, options and pre agree; master "
+             "TTFs keep float coordinates and implied on-curves; sparse table sets are subsets of the compilers' tables chosen by "
+             "layerName, placeholders only for missing component bases of non-default masters with the 0xFFFF sentinel; every I-filter "
+             "loops over all masters without early exit; location closure for decomposed components. Point compatibility of the output "
+             "and cu2qu's joint segment counts (fontTools) are not decided.",
+        design_ref="DESIGN.md §5 C09", note=STATIC_NOTE,
+        technique="static analysis: dominance/ordering rules on the pipeline, sibling agreement over class tables, constant evaluation of table sets, loop-shape rules, guard facts"),
 }
 
 _TODO = "check not built yet in this session (static rules designed in DESIGN.md §5; will be claimed when the rule set is armed)"
